@@ -386,6 +386,8 @@ impl Prop for C08 {
             ("macro", "OPERATION MACRO ::= BEGIN TYPE NOTATION ::= \"ARG\" type VALUE NOTATION ::= value (VALUE INTEGER) END\nop OPERATION ARG BOOLEAN ::= 1"),
             ("macro-empty", "X MACRO ::= BEGIN END"),
             ("all-value", "A ::= SEQUENCE { f INTEGER DEFAULT ALL }"),
+            ("all-value-assignment", "v INTEGER ::= ALL"),
+            ("time-value-assignment", "t TIME ::= \"2020\""),
             ("named-bits-untyped", "B ::= BIT STRING\nv B ::= { a }"),
             ("choice-value-untyped", "v INTEGER ::= a : 5"),
             ("empty-choice", "A ::= CHOICE { }"),
